@@ -150,6 +150,7 @@ type FV struct {
 	lockKeys     []string
 	refKinds     map[string]string
 	guardOf      map[string]string // map value term -> mutex ref term guarding it
+	noSpecAssume bool
 }
 
 type LoopInfo struct {
@@ -247,6 +248,9 @@ func (fv *FV) closed(f *Family, sym, wm string) {
 		fv.assumeGlobal(body)
 		return
 	}
+	// only objects that exist at that point (ref below the watermark; derived refs are negative):
+	// the contents of objects allocated later are described by whoever allocates them
+	body = implies(sx("<", names[0], wm), body)
 	fv.assumeGlobal(fmt.Sprintf("(forall (%s) (! %s :pattern (%s)))", strings.Join(vars, " "), body, app))
 }
 
